@@ -49,6 +49,11 @@ TABLE = {
             'through escaping QXmlStreamWriter calls and element/attribute names are never free text. It found four genuine round-trip defects the 388 test rows miss.',
             'Does not decide value-level equality after a round trip (dates, base64, whitespace, numeric formatting), optional-field combinations or sibling order; element names are matched class-wide (a reader that '
             'iterates over all children accepts any child name).', 'DESIGN.md §2 C01'),
+    'C02': ('definite-initialisation analysis of scalar members at every creation site (with constructor / setter / parse must-assign summaries), int-to-enum cast guard check, intraprocedural taint from parsed text and wire integers to size/index/loop sinks, single-consumption rule; positive controls',
+            'Static: for every value record of the library each scalar member without default initialiser must be initialised by every user constructor or assigned on every path after each default-initialising '
+            'creation (found 8 indeterminate members, 7 demonstrated with perturbed memory); integers become enums only behind a check of that integer; sizes, indices and loop bounds derived from attributes, '
+            'text or QDataStream reads are dominated by a bound (16-bit wire lengths bound allocations by type); typed children are not re-captured (fix-point). Zero-expected rules must fire on controls/c02_controls.cpp on every run.',
+            'Absence of crashes/UB in general, termination and memory bounds for deeply nested input, and value-level idempotence are not decided (need execution under sanitizers); QObject-derived classes are excluded from R1.', 'DESIGN.md §2 C02'),
 }
 
 NOT_APPLICABLE_REASON = 'check not built yet in this session (see DESIGN.md); listed here until qxverif/rules/<id>.py exists'
